@@ -55,7 +55,8 @@ def run(F, R, tier):
         fn = R.anchor(fid, "C14.R1")
         if not fn:
             continue
-        B = mir.Body(fn, F)
+        from lib import inline
+        B = mir.Body(inline.with_request_helpers(F, fn), F)
         bad = [(bi, what) for bi, what, loc in request_mutators(B) if what != "headers_mut"]
         R.check(not bad, "C14.R1", "C14.R1:%s:no-uri-method-version-mutation" % fid, "%s:%s" % (fn["file"], fn["line"]),
                 "no uri_mut/method_mut/version_mut/extensions_mut/body_mut call and no write to a request head field",
@@ -92,7 +93,8 @@ def run(F, R, tier):
         R.check(ok, "C14.R1", "C14.R1:%s:rebuild" % CONV, "%s:%s" % (cv["file"], cv["line"]), detail)
     hs = F.body_of(HRS)
     if hs:
-        B = mir.Body(hs, F)
+        from lib import inline
+        B = mir.Body(inline.with_request_helpers(F, hs), F)
         fp = B.calls_named("Request::from_parts")
         ok = False
         if len(fp) == 1:
